@@ -1,5 +1,5 @@
 #!/bin/bash
-# usage: tools/metasweep.sh <mode: swap|ifelse|demorgan>
+# usage: tools/metasweep.sh <mode: swap|ifelse|demorgan|wrap>   (wrap: every function of the anchored packages split into a pure forwarder and a worker)
 # Metamorphic self-test of the checker: a scratch copy of /repo with ONE mechanical
 # behaviour-preserving rewriting applied at every site (bin/metamorph), re-confirmed to
 # build, analysed by all twenty rule tables. Every alarm printed is a false alarm.
@@ -11,7 +11,7 @@ cd /verif
 [ -x bin/metamorph ] || (cd checker && go build -o ../bin/metamorph ./cmd/metamorph)
 W=$(mktemp -d /tmp/metasweep.XXXX); mkdir -p $W/repo $W/verif
 rsync -a --exclude .git /repo/ $W/repo/; cp known_findings.json anchors.json fields.json $W/verif/
-bin/metamorph -mode $M -dir $W/repo
+if [ "$M" = wrap ]; then bin/metamorph -mode wrap -dir $W/repo -pkgs fw,dv,std/engine,std/object,std/encoding,std/ndn/spec_2022,std/security,std/sync; else bin/metamorph -mode $M -dir $W/repo; fi
 (cd $W/repo && go build ./... 2>&1 | head -20)
 if [ -n "${TESTS:-}" ]; then (cd $W/repo && go test -vet=off -count=1 ./... 2>&1 | grep -v "no test files" | grep -v "^ok" | head -20); fi
 GOGC=off GOMEMLIMIT=6GiB ${BIN:-bin/ndndcheck} -sweep all -repo $W/repo -verif $W/verif 2>&1 | grep -E "^(VIOLATION|UNDECIDED): " | cut -c1-${WIDTH:-260}
